@@ -28,12 +28,15 @@ LEVEL = "exploration"
 META = dict(
     category=LEVEL,
     technique="bounded exhaustive enumeration: models x functions x lattice states (jit/vmap vs eager), all 2^14 state "
-              "signatures (vs the tree C state API), per-field transfer round trips; differential / round-trip oracles",
+              "signatures (vs the tree C state API), per-field transfer round trips, every static model field x perturbation "
+              "lattice through one reused jitted function; differential / round-trip oracles",
     text="jit(f), vmap(f) and jit(vmap(f)) of the MJX pipeline functions are compared leaf by leaf with eager per-sample "
          "evaluation on every state of the lattice; put_data/get_data/get_data_into round trips are compared field by field; "
          "state_size/get_state/set_state are run for every one of the 16384 signatures and cross-checked with the tree-built "
          "C library's mj_stateSize/mj_getState/mj_setState on identical content; make_data is compared with put_data of a "
-         "fresh MjData leaf by leaf; Model/Data pytrees are round-tripped through flatten/unflatten/replace/tree_replace.",
+         "fresh MjData leaf by leaf; Model/Data pytrees are round-tripped through flatten/unflatten/replace/tree_replace; one jitted "
+         "function that receives the Model as an argument is reused over sequences of sibling models that differ in a single static "
+         "(pytree-metadata) field and must return each sibling's own result (stale jit-cache entries).",
     note="MJX runs on the PyPI binding; MjData used as the transfer source is produced by the binding's C library (it is "
          "only a data container here, the property is a round trip). Eager evaluation is slow (op-by-op dispatch), so the "
          "eager baseline covers every function on a sub-lattice and jit-per-sample (itself checked against eager) covers the "
@@ -584,12 +587,12 @@ def check_rebind_fields(J, lib, part, item):
         got = np.asarray(shared(m))
         want = eager(m)
         if got.shape != want.shape or not np.array_equal(got, want, equal_nan=True):
-            part.violation("reused jit(f)(model) returns the previous model's constants: static %s field, %s" % (kind, tag.split(" @ ")[0]),
+            part.violation("reused jit(f)(model) returns the previous model's constants: static %s field" % kind,
                            "jit(projection)(sibling) != the sibling's own values after the same jitted function was called with the base "
                            "model: field %s, perturbation %s, model %s (%d entries differ)"
                            % (path, tag, item["name"], int(np.sum(got != want)) if got.shape == want.shape else -1),
                            {"xml": item["xml"], "field": path, "perturbation": tag, "index": i})
-    judge(mx, "base", "-", "-", -1)
+    judge(mx, "base", "-", "any", -1)
     n = 0
     for p_, a in fields:
         for tag, b in perturbations(a):
@@ -599,18 +602,21 @@ def check_rebind_fields(J, lib, part, item):
             part.count(1, key=(item["name"], "rebind", path_str(p_), tag),
                        sample={"model": item["name"], "field": path_str(p_), "perturbation": tag} if n == 2 else None)
             if jax.tree_util.tree_structure(sib) == base_struct:
-                part.violation("pytree metadata of two models with different static %s arrays compares equal (%s)" % (kind, tag),
+                part.violation("pytree metadata of two models with different static %s arrays compares equal" % kind,
                                "tree_structure(model) == tree_structure(sibling) although field %s differs (%s), model %s"
                                % (path_str(p_), tag, item["name"]), {"xml": item["xml"], "field": path_str(p_), "perturbation": tag})
             judge(sib, tag, path_str(p_), kind, n)
-    judge(mx, "base again", "-", "-", n)
+    judge(mx, "base again", "-", "any", n)
     part.add("rebind_field_siblings", n)
 
 
-REBIND_AXES = {      # MJCF attribute stored in a static float field -> (anchor text in the base model, replacement values)
-    "sensor_cutoff": [('cutoff="0.1"', 'cutoff="0.19"'), ('cutoff="0.5"', 'cutoff="0.9"'), ('cutoff="0.5"', 'cutoff="0.05"')],
-    "wrap_prm(fixed-tendon coef)": [('coef="1.3"', 'coef="1.7"'), ('coef="-0.7"', 'coef="-0.2"')],
-}
+REBIND_EDITS = [     # (static float field, anchor text in the base model, replacement): one MJCF attribute per sibling
+    ("sensor_cutoff", 'cutoff="0.5"', 'cutoff="0.9"'),
+    ("wrap_prm(fixed-tendon coef)", 'coef="1.3"', 'coef="1.7"'),
+    ("sensor_cutoff", 'cutoff="0.1"', 'cutoff="0.19"'),
+    ("wrap_prm(fixed-tendon coef)", 'coef="-0.7"', 'coef="-0.2"'),
+    ("sensor_cutoff", 'cutoff="0.5"', 'cutoff="0.05"'),
+]
 
 
 def check_rebind_pipeline(J, lib, part, item):
@@ -618,13 +624,12 @@ def check_rebind_pipeline(J, lib, part, item):
     kept in a static float field; each result must equal that of a freshly created jit (empty cache) called with that sibling only."""
     jax = J.jax
     f = fn_table(J)[item["fn"]]
-    axis = item["axis"]
-    xmls = [("base", item["xml"])]
-    for a_, b_ in REBIND_AXES[axis]:
+    xmls = [("base", item["xml"], "-")]
+    for fld, a_, b_ in item["edits"]:
         if a_ not in item["xml"]:
             raise ValueError("rebind anchor %r not in model %s" % (a_, item["name"]))
-        xmls.append(("%s->%s" % (a_, b_), item["xml"].replace(a_, b_, 1)))
-    xmls.append(("base again", item["xml"]))
+        xmls.append(("%s->%s" % (a_, b_), item["xml"].replace(a_, b_, 1), fld))
+    xmls.append(("base again", item["xml"], "-"))
     mt = lib.load_xml(item["xml"])
     states = H.states_for(mt, item["kind"], item["nstate"])
     S = H.batch_states(J, states)
@@ -638,7 +643,7 @@ def check_rebind_pipeline(J, lib, part, item):
     arg = S if batched else {k: v[1] for k, v in S.items()}
     stats = part.setdefault("stats", {})
     prev = None
-    for k, (label, xml) in enumerate(xmls):
+    for k, (label, xml, axis) in enumerate(xmls):
         mw = J.mujoco.MjModel.from_xml_string(xml)
         mx = J.mjx.put_model(mw)
         dx0 = J.mjx.make_data(mw)
@@ -650,8 +655,8 @@ def check_rebind_pipeline(J, lib, part, item):
         lg, lw = leaves_with_names(J, got), leaves_with_names(J, want)
         differs = prev is not None and any(nerr(a, b) > 1 for (_, a), (_, b) in zip(lw, prev))
         prev = lw
-        part.count(1, key=(item["name"], item["fn"], item["wrap"], axis, k) if (differs or k == 0) else None,
-                   sample={"model": item["name"], "fn": item["fn"], "wrap": item["wrap"], "axis": axis, "sibling": label} if k == 1 else None)
+        part.count(1, key=(item["name"], item["fn"], item["wrap"], label, k) if (differs or k == 0) else None,
+                   sample={"model": item["name"], "fn": item["fn"], "wrap": item["wrap"], "field": axis, "sibling": label} if k == 1 else None)
         if k and not differs:
             part.add("rebind_sibling_without_effect")
         worst, wname = 0.0, None
@@ -662,10 +667,10 @@ def check_rebind_pipeline(J, lib, part, item):
         kk = "rebind:%s(%s)" % (item["wrap"], item["fn"])
         stats[kk] = max(stats.get(kk, 0.0), worst if np.isfinite(worst) else 1e300)
         if [n_ for n_, _ in lg] != [n_ for n_, _ in lw] or worst > 1:
-            part.violation("reused %s(%s) with the model as argument != fresh jit of the same model: static field %s changed"
-                           % (item["wrap"], item["fn"], axis),
-                           "sibling %d (%s) of model %s: leaf %s differs from a fresh jit called with this sibling only (normalised err %.3g, tol 1)"
-                           % (k, label, item["name"], wname, worst),
+            part.violation("reused %s(%s) with the model as argument != fresh jit of the same model after a change of a static float field"
+                           % (item["wrap"], item["fn"]),
+                           "sibling %d (%s; field %s) of model %s: leaf %s differs from a fresh jit called with this sibling only (normalised err %.3g, tol 1)"
+                           % (k, label, axis, item["name"], wname, worst),
                            {"xml": xml, "base_xml": item["xml"], "fn": item["fn"], "wrap": item["wrap"], "sibling": label})
 
 
@@ -753,11 +758,11 @@ def alphabet(thorough):
     for m in ([m3, m4] if not thorough else models[:6] + minis):
         items.append(dict(m, task="rebind-fields"))
     r0 = G.tree_model("rebind[hinge,slide]", (-1, 0), ("hinge", "slide"), newton(0), tendon=True, actuators=0, sensors=1)
-    axes = list(REBIND_AXES)
-    combos = ([(axes[0], "forward", "jit_vmap"), (axes[1], "step", "jit")] if not thorough else
-              [(a_, fn, w_) for a_ in axes for fn in ("forward", "step") for w_ in ("jit", "jit_vmap")])
-    for a_, fn, w_ in combos:
-        items.append(dict(r0, task="rebind-pipeline", axis=a_, fn=fn, wrap=w_, nstate=4))
+    # quick: one sequence base -> cutoff sibling -> tendon-coefficient sibling -> base through jit(forward);
+    # thorough: all five siblings through {jit, jit(vmap)} x {forward, step}
+    combos = [("forward", "jit", REBIND_EDITS[:2])] if not thorough else [(fn, w_, REBIND_EDITS) for fn in ("forward", "step") for w_ in ("jit", "jit_vmap")]
+    for fn, w_, ed in combos:
+        items.append(dict(r0, task="rebind-pipeline", edits=ed, fn=fn, wrap=w_, nstate=4))
     # all 2^14 signatures on the state model (+ one more model in thorough), sharded
     sm = [state_model(newton(0))] + ([dict(m1, name="constr-state")] if thorough else [])
     # every signature costs one XLA compilation of a differently shaped concatenate (~30 ms): the quick tier enumerates
@@ -802,7 +807,15 @@ def run(ctx):
                 "states, comparing jit / vmap / jit(vmap) with eager per-sample (eager on a sub-lattice, jit-per-sample elsewhere); "
                 "transfer = models x lattice states x {get_data, get_data_into} over every field both sides define + contacts + batched; "
                 "state = %s signatures x {state_size, get_state, set_state} vs the tree C API with sentinel content; "
-                "makedata / pytree = per model. non-trivial = every (model, function, sample), (model, state, mode), signature with "
-                ">=2 components." % (len(items), "all 16384" if ctx.thorough else "all 940 with <=3 or >=11 of the 14 components (of 16384)"))
+                "makedata / pytree = per model; rebind = one jitted function with the Model as ARGUMENT over a sequence of sibling "
+                "models: (a) projection onto the static fields for every non-empty static numpy field of %s x perturbations {first "
+                "element +0.375|+1|flipped, last element *(1+2^-30)|+1|flipped, two unequal elements swapped} (counts: "
+                "extra.rebind_static_fields / rebind_field_siblings), (b) %s over MJCF siblings differing in one static float attribute "
+                "(sensor cutoff, fixed-tendon coefficient), base model revisited at the end. "
+                "non-trivial = every (model, function, sample), (model, state, mode), signature with "
+                ">=2 components, (model, static field, perturbation), pipeline sibling whose result differs from its predecessor's."
+                % (len(items), "all 16384" if ctx.thorough else "all 940 with <=3 or >=11 of the 14 components (of 16384)",
+                   "9 models" if ctx.thorough else "2 models (smooth+camera+mocap+spatial tendon, contact+explicit pair)",
+                   "{jit, jit(vmap)} x {forward, step} x 5 siblings" if ctx.thorough else "jit(forward) x 2 siblings"))
     ctx.assumptions = ["equality up to 1e-12 + 1e-9*scale for jit/vmap vs eager (XLA may reorder sums); bit-equality for the state API",
                        "history / plugin state components have size 0 in the alphabet (not expressible without plugins/delays)"]
